@@ -121,11 +121,13 @@ func ruleR26(c *Ctx) {
 		}
 		return v
 	}
+	// entry points: the exported methods of the trees (what the caller of the library calls with
+	// its own slices); unexported methods are helpers whose arguments come from the library
 	isTreeMethod := func(u *FuncUnit) bool {
 		for _, tk := range m.Trees {
 			for _, mu := range tk.Methods {
 				if mu == u {
-					return true
+					return u.Decl != nil && u.Decl.Name.IsExported()
 				}
 			}
 		}
